@@ -509,6 +509,61 @@ pub fn replay_history(clauses: &[Clause], n: usize, hist: &[Act]) -> Result<(), 
     Ok(())
 }
 
+/// explore every CNF of a chunk; `open` = bound on open decisions (None: num_vars + 1)
+fn explore_chunk(chunk: &[Vec<Clause>], open: Option<usize>) -> Report {
+    let mut r = Report::default();
+    r.exhaustive = true;
+    for clauses in chunk.iter() {
+        let nvars = num_vars(clauses);
+        let res = explore_cnf(clauses, nvars, open.unwrap_or(nvars + 1), 50_000_000);
+        r.states += res.states;
+        r.transitions += res.transitions;
+        r.traces += 1;
+        r.max_depth = r.max_depth.max(res.max_stack as u64);
+        r.add_extra("unsat_decisions", res.unsat_results);
+        r.add_extra("sat_states", res.sat_states);
+        r.add_extra("pops", res.pops);
+        r.add_extra("initially_unsat_cnfs", res.initially_unsat as u64);
+        if res.states > 1 {
+            r.distinct_nontrivial += res.states;
+        }
+        if let Some((hist, what)) = res.violation {
+            r.violation(
+                "solver-state-violates-statement",
+                format!("cnf {} after {:?}: {}", cnf_json(clauses), hist, what),
+                json!({"kind": "solver", "cnf": cnf_json(clauses), "n": nvars, "history": hist.iter().map(act_json).collect::<Vec<_>>()}),
+            );
+        }
+    }
+    r
+}
+
+/// wide-clause family over 5 variables: one clause over x0..x3 (every polarity pattern of
+/// `pats`) plus every multiset of two binary clauses linking x4 to one of x0..x3: a single
+/// decision on x4 can falsify two literals of the open wide clause at once
+pub fn wide_family(pats: &[usize]) -> Vec<Vec<Clause>> {
+    let mut bins: Vec<Clause> = Vec::new();
+    for i in 0..4usize {
+        for p4 in [true, false] {
+            for pi in [true, false] {
+                bins.push(vec![(i, pi), (4, p4)]);
+            }
+        }
+    }
+    let mut out = Vec::new();
+    for &pat in pats {
+        let wide: Clause = (0..4).map(|v| (v, (pat >> v) & 1 == 1)).collect();
+        for ms in multisets(bins.len(), 2).into_iter().filter(|m| m.len() == 2) {
+            let mut c = vec![wide.clone()];
+            for &i in ms.iter() {
+                c.push(bins[i].clone());
+            }
+            out.push(c);
+        }
+    }
+    out
+}
+
 fn families(ctx: &Ctx) -> Vec<(usize, usize, usize, &'static str)> {
     // (n, max clauses, max clause width, name)
     match ctx.tier {
@@ -574,6 +629,19 @@ pub fn run(ctx: &Ctx) -> Report {
         rep.add_extra(&format!("{}_cnfs", name), fam.traces);
         rep.add_extra(&format!("{}_states", name), fam.states);
         rep.bound(name, json!({"variables": n, "max_clauses": maxk, "max_clause_width": width, "clause_types": types.len(), "max_open_decisions": "num_vars+1"}));
+        rep.merge(fam);
+    }
+    // wide clauses (width 4, 5 variables), bounded to 3 open decisions
+    {
+        let pats: Vec<usize> = if ctx.tier == Tier::Quick { vec![0b1111, 0b0000, 0b0101] } else { (0..16).collect() };
+        let mut cnfs = wide_family(&pats);
+        ctx.rotate(&mut cnfs);
+        let open = ctx.tier.pick(3, 4);
+        let chunks: Vec<&[Vec<Clause>]> = cnfs.chunks(8).collect();
+        let fam = par_run(ctx, &chunks, |_, chunk| explore_chunk(chunk, Some(open)));
+        rep.add_extra("n5_wide4_plus_2_binary_cnfs", fam.traces);
+        rep.add_extra("n5_wide4_plus_2_binary_states", fam.states);
+        rep.bound("n5_wide4_plus_2_binary", json!({"variables": 5, "clauses": 3, "wide_clause_polarity_patterns": pats.len(), "binary_clause_pairs": 136, "max_open_decisions": open}));
         rep.merge(fam);
     }
     rep.evaluations = rep.transitions;
